@@ -92,6 +92,8 @@ inductive Tx where
   | bond (i : Nat) (bs : Votes) (allowed : Bool)   -- allowed: every target is a P-Rep listing `i` as bonder
   | xfer (i j : Nat) (v : Int)
   | claim (i : Nat) (icx : Int) (ok : Bool)
+  | burn (i : Nat) (fee : Int)               -- fee moved to the system address and burnt (HandleBurn)
+  | regPRep (i : Nat) (k : Nat) (fee : Int)  -- icsim registerPRep: account `i` (vote target `k`) pays and burns the fee, then registers
   deriving Repr
 
 def getAcct (w : World) (i : Nat) : Account := w.accts.getD i {}
@@ -241,8 +243,18 @@ def Tx.inRange (n : Nat) : Tx → Bool
   | .bond i _ _ => decide (i < n)
   | .xfer i j _ => decide (i < n) && decide (j < n)
   | .claim i _ _ => decide (i < n)
+  | .burn i _ => decide (i < n)
+  | .regPRep i _ _ => decide (i < n)
 
-def applyTx (w : World) (tx : Tx) : Option World :=
+/-- Transfer(from, SystemAddress, fee) + Withdraw(SystemAddress, fee) + HandleBurn(fee) -/
+def burnFee (w : World) (i : Nat) (fee : Int) : Option World :=
+  let a := getAcct w i
+  if fee < 0 then none
+  else if a.balance < fee then none
+  else some { setAcct w i { a with balance := a.balance - fee } with totalSupply := w.totalSupply - fee }
+
+/-- the single-step transactions -/
+def applyTx0 (w : World) (tx : Tx) : Option World :=
   if !tx.inRange w.accts.length then none else
   match tx with
   | .none => some w
@@ -253,6 +265,14 @@ def applyTx (w : World) (tx : Tx) : Option World :=
   | .bond i bs al => setBond w i bs al
   | .xfer i j v => transfer w i j v
   | .claim i icx ok => claim w i icx ok
+  | .burn i fee => burnFee w i fee
+  | .regPRep _ _ _ => none
+
+/-- a transaction: `regPRep` is the fee payment followed by the registration (both or nothing) -/
+def applyTx (w : World) (tx : Tx) : Option World :=
+  match tx with
+  | .regPRep i k fee => (applyTx0 w (.burn i fee)).bind (fun w1 => applyTx0 w1 (.register k))
+  | t => applyTx0 w t
 
 /-- handleTimerJob for one account at height h: the unbonding timer (reference counted in
     UpdateUnbonds, modelled as derived from the entries) and, only if the account is in the unstaking
